@@ -56,6 +56,7 @@ type Contract struct {
 	Uses     []string
 	RepInvs  []*Clause
 	FrozenClock bool
+	Hides       []string // pure spec functions treated as uninterpreted (heap-parametric) within this function's VC
 	ReadsClock  bool
 }
 
@@ -114,7 +115,7 @@ type Contracts struct {
 	Lines   int
 }
 
-var kwRe = regexp.MustCompile(`^(func|prop|requires|ensures|modifies|loop|site|trusted|inline|let|pure|axiom|lemma|invariant|nopanic|maypanic|finding|ispure|witness|uses|repinv|frozenclock|readsclock|rec)\b`)
+var kwRe = regexp.MustCompile(`^(func|prop|requires|ensures|modifies|loop|site|trusted|inline|let|pure|axiom|lemma|invariant|nopanic|maypanic|finding|ispure|witness|uses|repinv|frozenclock|readsclock|rec|hides)\b`)
 
 func LoadContracts(p *Program) (*Contracts, error) {
 	cs := &Contracts{Fns: map[string]*Contract{}, Pures: map[string]*PureFn{}, RepInvs: map[string]*RepInv{}}
@@ -307,6 +308,10 @@ func (cs *Contracts) parseFile(path string, pkg *types.Package) error {
 				return err
 			}
 			cur.RepInvs = append(cur.RepInvs, c)
+		case "hides":
+			for _, x := range strings.FieldsFunc(rest, func(r rune) bool { return r == ',' || r == ' ' }) {
+				cur.Hides = append(cur.Hides, x)
+			}
 		case "frozenclock":
 			cur.FrozenClock = true
 		case "readsclock":
